@@ -269,6 +269,23 @@ partial def seqSteps (ω : Oracle) (n : Nat) (idx : Nat) (model impl : Pool) (v 
           v := { v with c01 := firstFail v.c01 s!"{tag}:not-rectangular" }
         else if d.frame ≠ [] && d.nrows != (d.frame.nrows : Int) then
           v := { v with c01 := firstFail v.c01 s!"{tag}:nrows-mismatch" }
+  -- C01, second sentence: an operation that keeps rows keeps them WHOLE — every row of the result of a
+  -- row-selecting operation is a row of its source, all cells together (whatever rows it selected, in whatever order)
+  if status == "ok" then
+    let src := impl.getD tgt []
+    let derived : Option Frame := if impl'.length == impl.length + 1 then impl'.getLast? else none
+    let out? : Option Frame := match op with
+      | .head .. | .tail .. | .rowSlice .. | .filter .. | .sortValues .. => derived
+      | .dedup _ _ _ ip => if ip then impl'[tgt]? else derived
+      | .dropNa _ | .dropRow _ _ => impl'[tgt]?
+      | _ => none
+    match out? with
+    | some out =>
+      if out.keys == src.keys && out.rect? && src.rect? then
+        let srcRows := src.rows
+        if !(out.rows.all (fun r => srcRows.contains r)) then
+          v := { v with c01 := firstFail v.c01 s!"{tag}:rows-torn-apart" }
+    | none => pure ()
   -- the operation's own specification, on the implementation's input and output
   match relSpec ω impl op status impl' with
   | some (key, good) =>
